@@ -19,7 +19,7 @@ MANIFEST = dict(
          "that to all histories. Finding D7 is proved as a theorem about the shipped table (teardown delivered while facade is None) and "
          "reproduced on the real manager. Tie: translator + differential correspondence with the REAL GeckoAsyncSpaMan (locator.discover, "
          "GeckoAsyncSpa._connect, async_get_watercare and the facade constructor scripted) on the virtual loop, including calls parked at any "
-         "delivery/await while other calls run; direct monitors on the real manager. Session 4: every error scenario x reset origin is run on the real stack with a suspending client handler and the reset must land in IDLE; the guard `self._spa is not None` is part of the translated vocabulary (.spaSome). The order inside GeckoAsyncSpa.disconnect() is a theorem over its regenerated suspension skeleton (disconnect_order: announced before the spa cancels its own tasks, nothing suspends between that cancellation and the last clean-up step). every_started_phase_is_closed: over the regenerated skeletons, the FINISHED announcement is awaited on every exit of the locate / connect phase, cancellation at any await included (resource monitor, sound by releasedOnEveryExit_sound). A reset from another task while the sequence pump is suspended in the client`s facade-ready handler: phases closed, manager reconnects.",
+         "delivery/await while other calls run; direct monitors on the real manager. Session 4: every error scenario x reset origin is run on the real stack with a suspending client handler and the reset must land in IDLE; the guard `self._spa is not None` is part of the translated vocabulary (.spaSome). The order inside GeckoAsyncSpa.disconnect() is a theorem over its regenerated suspension skeleton (disconnect_order: announced before the spa cancels its own tasks, nothing suspends between that cancellation and the last clean-up step). every_started_phase_is_closed: over the regenerated skeletons, the FINISHED announcement is awaited on every exit of the locate / connect phase, cancellation at any await included (resource monitor, sound by releasedOnEveryExit_sound). A reset from another task while the sequence pump is suspended in the client`s facade-ready handler: phases closed, manager reconnects. Round 14: a user reset with a client whose disconnection handlers are slower than a discovery (genuine defect D16, fix 124e61a) - real stack.",
     note="Trusted: Lean kernel, translator (an unknown statement refuses), correspondence harness. The content of locate/connect is abstracted to its "
          "event sequence (C01/C06/C15). Theorems other than the delivery/status one are about calls that are not interleaved; interleavings are "
          "covered by correspondence + search to bounded depth. Locate/connect are assumed to be issued as the sequence pump does (one at a time, "
@@ -727,6 +727,47 @@ def explore_reset_in_ready_handler():
     return res
 
 
+def explore_reset_with_slow_client(slow):
+    """REAL stack: the client's handlers of the disconnection events (facade teardown, spa disconnected) are SLOW - longer than a
+    discovery takes - when the user resets: the sequence pump, another task, runs a whole discovery inside the reset. Where does the
+    reset land, and does the manager connect again?"""
+    import fakenet
+    from geckolib import GeckoAsyncSpaMan
+    from props import c10
+    res = {"events": []}
+
+    async def body(loop):
+        class Man(GeckoAsyncSpaMan):
+            async def handle_event(self, event, **kw):
+                name = str(event).split(".")[-1]
+                res["events"].append(name)
+                if "TEARDOWN" in name or "DISCONNECTED" in name:
+                    await asyncio.sleep(slow)
+        sim = fakenet.make_sim(c10.SNAP)
+        loop.network = fakenet.Network(loop, sim, phases=[], seed=1)
+        m = Man("uuid-1", spa_identifier=c10.IDENT, spa_address="10.0.0.9", spa_name="Spa")
+        await m.__aenter__()
+        for _ in range(800):
+            await asyncio.sleep(0.05)
+            if m.facade is not None and str(m.spa_state).endswith("CONNECTED"):
+                break
+        res["connected_first"] = m.facade is not None
+        n0 = len(res["events"])
+        await m.async_reset()
+        res["landed"] = {"state": str(m.spa_state).split(".")[-1], "facade": m.facade is not None, "spa": m._spa is not None,
+                         "descriptors": m._spa_descriptors is not None}
+        res["during_reset"] = res["events"][n0:]
+        for _ in range(1200):
+            await asyncio.sleep(0.05)
+            if m.facade is not None and str(m.spa_state).endswith("CONNECTED"):
+                break
+        res["final"] = str(m.spa_state).split(".")[-1]
+        res["facade"] = m.facade is not None
+        await m.__aexit__(None, None, None)
+    vloop.run_virtual(body, stable=True)
+    return res
+
+
 def run(ctx):
     st = translate.run(["LifecycleEnums", "LifecycleTable", "LifecycleReach", "Skeletons"])
     ctx.cov["translator"] = st
@@ -839,6 +880,19 @@ def run(ctx):
     except Exception as e:  # noqa
         ctx.obligation_broken("harness:reset-in-ready-handler", f"{type(e).__name__}: {e}")
 
+    # ---- D3: a user reset with a client whose disconnection handlers are slow (the pump runs a discovery inside the reset)
+    for slow in (0.3, 1.0):
+        try:
+            rs = explore_reset_with_slow_client(slow)
+            ctx.count("evaluations")
+            ctx.cov[f"reset_with_slow_client_{slow}"] = {k: rs.get(k) for k in ("landed", "final", "facade")} | {"discovery_inside": "LOCATING_FINISHED" in rs.get("during_reset", [])}
+            if rs.get("connected_first") and (rs["landed"] != {"state": "IDLE", "facade": False, "spa": False, "descriptors": False} or rs["final"] != "CONNECTED"):
+                ctx.violation("reset-does-not-land-idle:real-stack:slow-client", {"kind": "reset-with-slow-client", "handler_takes_s": slow},
+                              "the reset lands in IDLE with no facade, spa or descriptors, and the manager connects again",
+                              {"landed": rs["landed"], "events_during_reset": rs["during_reset"][:8], "final_state": rs["final"]})
+        except Exception as e:  # noqa
+            ctx.obligation_broken("harness:reset-with-slow-client", f"{type(e).__name__}: {e}")
+
     # ---- correspondence with the Lean model
     try:
         model = Driver("Driver/C08.lean").run(all_lines)
@@ -887,6 +941,9 @@ def replay(inp):
         rr = explore_reset_in_ready_handler()
         bad = [k for k, (a, b) in rr["brackets"].items() if a != b]
         return bool(bad or not rr["pump_alive"] or rr["final"] != "CONNECTED"), {k: rr.get(k) for k in ("brackets", "pump_alive", "final")}
+    if inp.get("kind") == "reset-with-slow-client":
+        rs = explore_reset_with_slow_client(inp["handler_takes_s"])
+        return (rs["landed"] != {"state": "IDLE", "facade": False, "spa": False, "descriptors": False} or rs["final"] != "CONNECTED"), {"landed": rs["landed"], "final": rs["final"]}
     if inp.get("kind") == "real-stack-reset":
         from props import c10
         e = c10.explore_error(inp["scenario"], inp["origin"], True)
